@@ -23,7 +23,7 @@ OL, EN = 0, 1
 def gen_case(rng, kind="valid", big=False):
     asm = [(OL,), (EN,), (OL, EN), (EN, OL)][rng.integers(0, 4)]
     nsteps = int(rng.integers(1, 5))
-    ng = int(rng.integers(1, 31)) if not big else 1000
+    ng = int(rng.integers(1, 31)) if not big else 300
     # minerals: every phase of the assemblage at least once, in random order, sometimes a phase twice
     phases = list(asm)
     if rng.random() < 0.25:
@@ -198,7 +198,7 @@ KINDS = ["valid"] * 8 + ["bad_ngrains", "bad_osteps", "bad_fsteps", "phase_missi
 
 def gen_cases(chk, tier):
     rng = np.random.default_rng(chk.seed)
-    n = 400 if tier == "quick" else 20000
+    n = 260 if tier == "quick" else 20000
     cases = [gen_case(rng, KINDS[k % len(KINDS)]) for k in range(n)]
     for _ in range(1 if tier == "quick" else 20):
         cases.append(gen_case(rng, "valid", big=True))
@@ -250,7 +250,7 @@ def run(chk):
         "StiffnessTensors.__iter__ yields (olivine, enstatite) = phase-ordinal order (the harness passes the tensors in that order; checked by the differential run with distinct custom tensors)",
     ]
     chk.cov["rule"] = ("synthetic minerals built directly from arrays: assemblages (ol), (en), (ol,en), (en,ol); mineral list in random order, a phase listed twice in 25% of cases; "
-                       "1-4 snapshots, 1-30 grains (+1000-grain textures), Haar orientations, Dirichlet volumes (alpha 0.3/1/10), phase fractions on the simplex, "
+                       "1-4 snapshots, 1-30 grains (+300-grain textures), Haar orientations, Dirichlet volumes (alpha 0.3/1/10), phase fractions on the simplex, "
                        "built-in or random SPD stiffness pairs; error stream: unequal n_grains, unequal orientation / fraction snapshot counts, phase missing from the assemblage, "
                        "too few phase fractions; implementation vs extracted model at 1e-9 and same exception class; non-trivial = the call returns a result")
     bad = []
